@@ -248,8 +248,14 @@ func init() {
 	mc.Register(&mc.ScenarioDef{Scn: scnReserve("reserve-acct"), Monitors: []mc.Monitor{monC03()}})
 	mc.Register(&mc.ScenarioDef{Scn: scnReserve("reserve-si"), Monitors: []mc.Monitor{monC04()}})
 	siBasic := scnCapBasic("si-basic", "fair")
-	siBasic.Alphabet = append(siBasic.Alphabet, "ASK_RELEASE") // an ask and its own release in one update
+	siBasic.Alphabet = append(siBasic.Alphabet, "ASK_RELEASE", "ASK_AGAIN") // an ask and its own release in one update; a key used a second time
 	mc.Register(&mc.ScenarioDef{Scn: siBasic, Monitors: []mc.Monitor{monC04()}})
+	// an allocation key that is used, released and used again for a new task
+	siReuse := scnCapBasic("si-reuse", "fair")
+	siReuse.Alphabet = []string{"SCHEDULE", "ASK", "ASK_AGAIN", "RELEASE", "NODE_ADD"}
+	siReuse.Foreign = nil
+	siReuse.Prefix = append(siReuse.Prefix, op("ASK", "a1"), op("SCHEDULE"))
+	mc.Register(&mc.ScenarioDef{Scn: siReuse, Monitors: []mc.Monitor{monC04()}})
 	mc.Register(&mc.ScenarioDef{Scn: scnQueueMax("qmax-leaf", confMaxLeaf, nil), Monitors: []mc.Monitor{monC02()}})
 	mc.Register(&mc.ScenarioDef{Scn: scnQueueMax("qmax-parent", confMaxParent, nil), Monitors: []mc.Monitor{monC02()}})
 	mc.Register(&mc.ScenarioDef{Scn: scnQueueMax("qmax-dynamic", confMaxDynamic, []world.AppSpec{
@@ -274,8 +280,8 @@ func init() {
 			return strings.HasPrefix(n, "S29-") || strings.HasPrefix(n, "S8-") || strings.HasPrefix(n, "S26-")
 		}), Replay: replayC14})
 	registerCheck(&CheckDef{Prop: "C04", Level: "model_checking", Technique: tE1,
-		Quick:       []Run{{Scenario: "si-basic", Depth: 6, MapModes: []int{1}}, {Scenario: "gang-si-Soft", Depth: 6, MapModes: []int{1}}, {Scenario: "gang-si-Hard", Depth: 5, MapModes: []int{1}}, {Scenario: "reserve-si", Depth: 6, MapModes: []int{1}}, {Scenario: "gang-si-same", Depth: 6, MapModes: []int{1}}, {Scenario: "reserve-bind-si", Depth: 6, MapModes: []int{1}}, {Scenario: "gang-si-reversed", Depth: 7, MapModes: []int{1}}},
-		Thorough:    []Run{{Scenario: "gang-si-reversed", Depth: 10, MapModes: []int{1}}, {Scenario: "gang-si-same", Depth: 10, MapModes: []int{1}}, {Scenario: "reserve-bind-si", Depth: 10, MapModes: []int{1, 2}}, {Scenario: "si-basic", Depth: 9, MapModes: []int{1, 2}}, {Scenario: "gang-si-Soft", Depth: 9, MapModes: []int{1, 2}}, {Scenario: "gang-si-Hard", Depth: 9, MapModes: []int{1}}, {Scenario: "reserve-si", Depth: 8, MapModes: []int{1}}},
+		Quick:       []Run{{Scenario: "si-basic", Depth: 6, MapModes: []int{1}}, {Scenario: "gang-si-Soft", Depth: 6, MapModes: []int{1}}, {Scenario: "gang-si-Hard", Depth: 5, MapModes: []int{1}}, {Scenario: "reserve-si", Depth: 6, MapModes: []int{1}}, {Scenario: "gang-si-same", Depth: 6, MapModes: []int{1}}, {Scenario: "reserve-bind-si", Depth: 6, MapModes: []int{1}}, {Scenario: "gang-si-reversed", Depth: 7, MapModes: []int{1}}, {Scenario: "si-reuse", Depth: 7, MapModes: []int{1}}},
+		Thorough:    []Run{{Scenario: "si-reuse", Depth: 9, MapModes: []int{1}}, {Scenario: "gang-si-reversed", Depth: 10, MapModes: []int{1}}, {Scenario: "gang-si-same", Depth: 10, MapModes: []int{1}}, {Scenario: "reserve-bind-si", Depth: 10, MapModes: []int{1, 2}}, {Scenario: "si-basic", Depth: 9, MapModes: []int{1, 2}}, {Scenario: "gang-si-Soft", Depth: 9, MapModes: []int{1, 2}}, {Scenario: "gang-si-Hard", Depth: 9, MapModes: []int{1}}, {Scenario: "reserve-si", Depth: 8, MapModes: []int{1}}},
 		QuickBudget: 150 * time.Second, ThoroughBudget: 12 * time.Minute})
 	registerCheck(&CheckDef{Prop: "C06", Level: "model_checking", Technique: tE1,
 		Quick:       []Run{{Scenario: "gang-Soft", Depth: 6, MapModes: []int{1}}, {Scenario: "gang-Hard", Depth: 6, MapModes: []int{1}}, {Scenario: "gang-sparse", Depth: 6, MapModes: []int{1}}},
